@@ -92,7 +92,7 @@ type def struct {
 func defaults() []def {
 	return []def{
 		{0, 1, "monobit", func(d []byte) []float64 { return two(r.MonoBitFrequencyTestBytes(d)) }},
-		{1, 2, "block frequency (automatic m)", func(d []byte) []float64 { return two(r.FrequencyWithinBlockTest(r.B2bitArr(d))) }},
+		{1, 2, "block frequency (automatic m)", func(d []byte) []float64 { return two(r.FrequencyWithinBlockTest(refmodel.Bits(d))) }},
 		{2, 1, "poker m=8", func(d []byte) []float64 { return two(r.PokerTestBytes(d, 8)) }},
 		{3, 1, "overlapping m=5", func(d []byte) []float64 { return four(r.OverlappingTemplateMatchingTestBytes(d, 5)) }},
 		{4, 1, "runs", func(d []byte) []float64 { return two(r.RunsTestBytes(d)) }},
